@@ -476,3 +476,43 @@ def unwrapped_mutations(ctx, rule):
                    "BTree::%s reachable with WAL enabled writes the mmap directly (storage not wrapped in WalStoragePerTable): the page is neither "
                    "dirty-tracked nor logged, so a committed change to it is absent from the log" % meth, c.loc())
     ctx.floor(rule + ".wrapped_sites", total_wrapped, 10)
+
+
+def checkpoint_after_flush(ctx, rule):
+    """execute_commit ends with maybe_auto_checkpoint, which copies WAL frame images back over the table files.  That is only sound
+    when every page dirtied since the last flush has been logged first: with WAL enabled and a non-empty dirty set (the tracker is
+    shared by all handles — its contents do not depend on what *this* transaction wrote), every path to the checkpoint call passes
+    one of the commit logging routines."""
+    from paths import Assume, atomic_load_of, assumed_cuts, source_call
+    m = ctx.m
+    f = stmt_handler(m, "execute_commit")
+
+    def dirty_ids_empty(fn, kind, payload):
+        if kind != "call" or payload is None or not payload.name.endswith("::is_empty") or not payload.args:
+            return False
+        pl = operand_place(payload.args[0])
+        src = source_call(fn, pl[0]) if pl is not None and not pl[1] else None
+        hops = 0
+        while src is not None and hops < 4 and (src.name.endswith("::deref") or src.name.endswith("::as_slice") or src.name.endswith("::as_ref")):
+            p0 = operand_place(src.args[0])
+            src = source_call(fn, p0[0]) if p0 and not p0[1] else None
+            hops += 1
+        return src is not None and src.name.endswith("ShardedDirtyTracker::all_dirty_table_ids")
+    A = [atomic_load_of("wal_enabled", True), Assume("the shared dirty set is not empty", dirty_ids_empty, False)]
+    cuts, applied = assumed_cuts(f, A)
+    cps = [c for c in f.calls if c.name.endswith("::maybe_auto_checkpoint")]
+    logs = [c for c in f.calls if c.name.endswith("::execute_small_commit") or c.name.endswith("::execute_chunked_wal_commit")]
+    if not cps or not logs:
+        raise CheckError("execute_commit: %d checkpoint call(s), %d logging call(s)" % (len(cps), len(logs)))
+    ok = len(applied) >= 2
+    why = ("the test that gates the logging of dirty pages is not an emptiness test of ShardedDirtyTracker::all_dirty_table_ids() alone "
+           "(it depends on something else, e.g. on what this transaction wrote): pages dirtied through other paths or handles are not "
+           "logged before the auto-checkpoint copies older frame images over them")
+    if ok:
+        reach = f.reachable([0], cut_edges=cuts | {(b, s) for c in logs for b in [c.bb] for s in f.succ(b, unwind=False)})
+        hit = [c for c in cps if c.bb in reach]
+        ok = not hit
+        why = "the auto-checkpoint is reached only after the dirty pages were logged" if ok else \
+              "with WAL enabled and dirty pages in the shared tracker, COMMIT can reach maybe_auto_checkpoint without logging them first: the " \
+              "checkpoint copies older frame images over the newer unlogged pages"
+    ctx.ob(rule, "execute_commit", ok, why, (cps[0] if cps else f).loc() if cps else f.loc())
